@@ -44,6 +44,8 @@ Shapes ==
   \cup { <<"xoid", k>>  : k \in {"oid", "num"} }          \* {"$oid": x}
   \cup { <<"xbin", k>>  : k \in {"b64", "num"} }          \* {"$binary": {base64: x, subType: "04"}}
   \cup { <<"eo", "null">>, <<"ea", "null">> }             \* {}  []
+  \cup { <<"sao", k>> : k \in {"plain", "num", "dollar"} }            \* [scalar, {uf: plain}]   a bare operand before a document operand
+  \cup { <<"saa", k>> : k \in {"plain", "num", "dollar"} }            \* [scalar, [plain], {uf2: scalar}]
 
 \* C07: extended-JSON wrappers holding the wrong kind of value (any scalar, an array, a document), and $binary holding a
 \* scalar or an array instead of a document.  Only generated when TWShapeKinds names them.
@@ -82,6 +84,8 @@ ShapeTree(sh) ==
     [] sh[1] = "xbinO"  -> Obj(<< <<"$binary", Obj(<< <<"base64", Obj(<< <<UF, L(k)>> >>)>>, <<"subType", L(k)>> >>)>> >>)
     [] sh[1] = "xbinS"  -> Obj(<< <<"$binary", L(k)>> >>)
     [] sh[1] = "xbinSA" -> Obj(<< <<"$binary", Arr(<<L(k), L("plain")>>)>> >>)
+    [] sh[1] = "sao"  -> Arr(<< L(k), Obj(<< <<UF, L("plain")>> >>) >>)
+    [] sh[1] = "saa"  -> Arr(<< L(k), Arr(<<L("plain")>>), Obj(<< <<UF2, L(k)>> >>) >>)
     [] sh[1] = "eo"   -> Obj(<< >>)
     [] sh[1] = "ea"   -> Arr(<< >>)
 
